@@ -48,6 +48,9 @@ def make_layouts(rng, n_eng, n_lines, same=False):
             mode = rng.random()
             if mode < 0.15:
                 text = ''
+            elif e > 0 and rng.random() < 0.35 and li < len(layouts[0].regions[0].lines) and \
+                    all(ch in chars for ch in (layouts[0].regions[0].lines[li].transcription or '')):
+                text = layouts[0].regions[0].lines[li].transcription      # engines agreeing on the text (different logits / charset order)
             else:
                 text = ''.join(rng.choice(chars) for _ in range(rng.randrange(1, 5)))
             T = rng.randrange(max(1, 2 * len(text)), 2 * len(text) + 6)
@@ -85,7 +88,7 @@ def _run(ctx):
     ctx.assumptions += ['mean character confidences computed by the real get_confidences are sent to the model as exact dyadics; '
                         'ties are exact float equalities (same object content)']
     reqs, impl = [], []
-    n = 150 if ctx.quick() else 2500
+    n = 400 if ctx.quick() else 4000
     for it in range(n):
         n_eng = rng.randrange(1, 5)
         n_lines = rng.randrange(1, 5)
